@@ -740,11 +740,15 @@ pub fn gen_program(r: &mut Rng, root_names: &[(String, Ty)], depth: u32, stub_ra
 /// Generates programs until one is within the cost bounds for collections of `var_len` elements,
 /// lowering the depth on every rejection.
 pub fn gen_program_bounded(r: &mut Rng, root_names: &[(String, Ty)], depth: u32, stub_rate: u64, ill_typed_rate: u64, var_len: u64) -> ProgramSpec {
+    gen_program_costed(r, root_names, depth, stub_rate, ill_typed_rate, var_len, MAX_PROGRAM_COST)
+}
+
+pub fn gen_program_costed(r: &mut Rng, root_names: &[(String, Ty)], depth: u32, stub_rate: u64, ill_typed_rate: u64, var_len: u64, max_cost: u64) -> ProgramSpec {
     let mut d = depth;
     for _ in 0..12 {
         let p = gen_program_once(r, root_names, d, stub_rate, ill_typed_rate);
         let (cost, size) = estimate(p.tree.as_ref().expect("generated tree"), var_len);
-        if cost <= MAX_PROGRAM_COST && size <= MAX_PROGRAM_SIZE {
+        if cost <= max_cost && size <= MAX_PROGRAM_SIZE {
             return p;
         }
         d = d.saturating_sub(1).max(1);
@@ -897,7 +901,9 @@ pub fn gen_workload(run_seed: u64, engine: Engine, lim: &Limits, faults: bool) -
     let mut programs = vec![];
     for _ in 0..n_programs {
         let depth = r.range(1, lim.max_prog_depth as i64) as u32;
-        programs.push(gen_program_bounded(&mut r, &env, depth, stub_rate, ill, var_len));
+        // Miri executes ~1000x slower: keep its programs cheap
+        let max_cost = if engine == Engine::M { 2_500 } else { MAX_PROGRAM_COST };
+        programs.push(gen_program_costed(&mut r, &env, depth, stub_rate, ill, var_len, max_cost));
     }
 
     let mut threads = vec![];
